@@ -759,6 +759,106 @@ let conn_case (line : string) : string =
         with Failure m -> "MISMATCH " ^ m)
      | _ -> failwith "bad conn head")
 
+(* ---- domain node (C17, C18, C19) ---- *)
+let node_name_bytes = List.map (fun c -> n_of_int (Char.code c)) (List.init 15 (String.get "verif@127.0.0.1"))
+let show_lmsgs (evs : lmsg list) : string =
+  let items = List.map (function
+    | MRegular b -> ("", "R " ^ term_str b)
+    | MExit (f, r) -> ("", "X " ^ term_str (TPid f) ^ " " ^ term_str r)
+    | MMonitorExit (m, rf, r) -> (term_str (TPid m), "M " ^ term_str (TPid m) ^ " " ^ term_str rf ^ " " ^ term_str r)) evs in
+  (* runs of monitor notices of one terminated process: canonical order *)
+  let rec go (l : (string * string) list) : string list =
+    match l with
+    | [] -> []
+    | (k, _) :: _ when k <> "" ->
+        let rec span acc l = (match l with (k', x) :: r when k' = k -> span (x :: acc) r | _ -> (List.rev acc, l)) in
+        let (run, rest) = span [] l in
+        List.sort compare run @ go rest
+    | (_, x) :: r -> x :: go r in
+  match go items with [] -> "-" | l -> String.concat " , " l
+let node_case (line : string) : string =
+  match split_on " ;; " line with
+  | [] -> failwith "empty"
+  | head :: steps ->
+    let connect = (match words head with ["node"; c] -> c = "1" | _ -> failwith "bad node head") in
+    let cfg = mk_cfg owned_arms [] [] in
+    let st = ref (node_init node_name_bytes (n_of_int 7) connect) in
+    let pids = ref [] and refs = ref [] and sent_calls = ref [] and ncalls = ref 0 and printed = ref [] in
+    let do_op o = let (st', u) = step cfg !st o in st := st'; u in
+    let pid_arg (t : toks) : pidr =
+      (match t.l with
+       | tok :: r when String.length tok > 0 && tok.[0] = '$' ->
+           t.l <- r; List.nth !pids (int_of_string (String.sub tok 1 (String.length tok - 1)))
+       | _ -> pid_of_term (rd_term cmp_owned t)) in
+    let okerr = function UOk -> "ok" | _ -> "err" in
+    let frame_to (p : pidr) (body : term) : n list option =
+      (match frame_body N0 [] (SSend (p, body)) with Some b -> Some b | None -> None) in
+    let outs = List.map (fun step ->
+      let t = { l = words step } in
+      match next t with
+      | "spawn" -> (match do_op OSpawn with UPid p -> pids := !pids @ [p]; "pid " ^ term_str (TPid p) | _ -> "err")
+      | "register" -> let nm = bytes_of_hex (next t) in let p = pid_arg t in okerr (do_op (ORegister (nm, p)))
+      | "unregister" -> okerr (do_op (OUnregister (bytes_of_hex (next t))))
+      | "whereis" -> (match do_op (OWhereis (bytes_of_hex (next t))) with UPid p -> "pid " ^ term_str (TPid p) | _ -> "none")
+      | "send" -> let p = pid_arg t in okerr (do_op (OSend (p, rd_term cmp_owned t)))
+      | "sendname" -> let nm = bytes_of_hex (next t) in okerr (do_op (OSendName (nm, rd_term cmp_owned t)))
+      | "link" -> let a = pid_arg t in let b = pid_arg t in okerr (do_op (OLink (a, b)))
+      | "unlink" -> let a = pid_arg t in let b = pid_arg t in okerr (do_op (OUnlink (a, b)))
+      | "monitor" -> let a = pid_arg t in let b = pid_arg t in
+          (match do_op (OMonitor (a, b)) with URef r -> refs := !refs @ [r]; "ref " ^ term_str r | _ -> "err")
+      | "demonitor" -> let a = pid_arg t in let b = pid_arg t in
+          let k = (let s = next t in int_of_string (String.sub s 1 (String.length s - 1))) in
+          okerr (do_op (ODemonitor (a, b, List.nth !refs k)))
+      | "rpc" ->
+          let short = next t = "S" in
+          let m = bytes_of_hex (next t) in let f = bytes_of_hex (next t) in
+          let n = int_of_string (next t) in
+          let rec many n = if n = 0 then [] else let x = rd_term cmp_owned t in x :: many (n - 1) in
+          let args = many n in
+          let before = !st.n_pending in
+          let u = do_op (ORpc (short, m, f, args)) in
+          incr ncalls;
+          (match u with
+           | UOk -> (match List.rev !st.n_pending with (rp, _) :: _ when List.length !st.n_pending > List.length before -> sent_calls := !sent_calls @ [rp] | _ -> ()); "ok"
+           | _ -> "err")
+      | "expire" -> ignore (do_op OExpire); "-"
+      | "frame" -> ignore (do_op (OFrame (bytes_of_hex (next t)))); "-"
+      | "tick" -> ignore (do_op (OFrame [])); "-"
+      | "sync" -> (match !pids with p0 :: _ -> (match frame_to p0 (TAtom (List.map (fun c -> n_of_int (Char.code c)) ['s';'y';'n';'c'])) with Some b -> ignore (do_op (OFrame b)) | None -> ()) | [] -> ()); "-"
+      | "reply" ->
+          let i = (let s = next t in int_of_string (String.sub s 1 (String.length s - 1))) in
+          let body = rd_term cmp_owned t in
+          (match List.nth_opt !sent_calls i with
+           | Some rp -> (match frame_to rp body with Some b -> ignore (do_op (OFrame b)) | None -> ())
+           | None -> ()); "-"
+      | "replyto" -> let p = pid_arg t in let body = rd_term cmp_owned t in
+          (match frame_to p body with Some b -> ignore (do_op (OFrame b)) | None -> ()); "-"
+      | "overlong" -> ignore (do_op OOverlong); "-"
+      | "close" -> ignore (do_op OPeerClose); "-"
+      | "results" ->
+          let rs = List.filter_map (fun i ->
+            if List.mem i !printed then None else
+            (match List.find_opt (fun (j, _) -> int_of_n j = i) !st.n_results with
+             | Some (_, r) -> printed := i :: !printed;
+                 Some (match r with RReply b -> "reply " ^ term_str b | RTimeout -> "timeout" | RNotConnected -> "notconnected" | RSendFailed -> "sendfailed")
+             | None -> Some "pending")) (List.init !ncalls (fun i -> i)) in
+          if rs = [] then "-" else String.concat " , " rs
+      | "pending" -> string_of_int (List.length !st.n_pending)
+      | "conns" -> if !st.n_connected then "1" else "0"
+      | "count" -> string_of_int (List.length !st.n_procs)
+      | "registered" ->
+          (match List.sort compare (List.map (fun (nm, _) -> hex_of_bytes nm) !st.n_names) with [] -> "-" | l -> String.concat "," l)
+      | "events" ->
+          let k = (let s = next t in int_of_string (String.sub s 1 (String.length s - 1))) in
+          let p = List.nth !pids k in
+          let same (x : proc) = x.pp.pnum = p.pnum && x.pp.pserial = p.pserial in
+          (match List.find_opt same !st.n_procs with
+           | Some x -> show_lmsgs x.pevents
+           | None -> (match List.find_opt same !st.n_gone with Some x -> show_lmsgs x.pevents | None -> "-"))
+      | "wrote" -> hex_of_bytes (List.concat !st.n_wrote)
+      | x -> failwith ("bad node step " ^ x)) steps in
+    String.concat " ;; " outs
+
 let () =
   let domain = if Array.length Sys.argv > 1 then Sys.argv.(1) else "" in
   let f = match domain with
@@ -772,6 +872,7 @@ let () =
     | "elixir" -> elixir_case
     | "serde" -> serde_case
     | "conn" -> conn_case
+    | "node" -> node_case
     | _ -> prerr_endline ("unknown domain " ^ domain); exit 2 in
   (try
     while true do
